@@ -30,6 +30,22 @@ CLAIMED = {
          "every successful settlement is recomputed from TWAP answers read in the pre-state; per-position funding charges on owner trades and reversals are recomputed exactly", TB, "DESIGN.md §3 C11"),
  "C12": ("exploration", HIST + "reference-model oracle on dispatched fee transfers",
          "fee transfers into fund and fee pool are taken from the instrumented token/bank and compared with floor(n*ratio/D) resp. the vAMM's CalcFee answer", TB, "DESIGN.md §3 C12"),
+ "C09": ("exploration", "generated states + exhaustive role matrix per state (every privileged message variant x every sender kind), role-transfer histories, full storage dump comparison",
+         "in every generated deployment state the complete matrix of 26 privileged messages x 9+ senders is executed from one snapshot: non-holders must be refused with the dump unchanged, holders must succeed where only authorisation can fail; repeated after each generated role transfer with holders tracked by the harness", TB + "; matrix enumerated per state, states and transfer histories sampled", "DESIGN.md §3 C09 + Appendix A"),
+ "C13": ("exploration", "differential testing (proptest): twin native / cw20 deployments driven in lock-step, native calls attach what the cw20 twin pulled",
+         "the same generated history is applied to twin deployments; outcome, positions, vAMM and engine state and all balance deltas must agree after every operation; fees-from-vault probed by a what-if close with nothing attached; F6 family listed as known findings, F7 repaired", TB, "DESIGN.md §3 C13"),
+ "C14": ("exploration", HIST + "what-if twins (unpaused copy of the same state), blocked-operation table, registry invariants, shutdown post-condition",
+         "pause / closed / unregistered tables are evaluated on generated histories with registry and status toggles; Liquidate/PayFunding while paused are compared with an unpaused twin of the same pre-state; shutdown must leave every registered vAMM closed", TB, "DESIGN.md §3 C14"),
+ "C15": ("exploration", HIST + "price-band oracle against a harness-recorded end-of-previous-block reference price",
+         "the reference price of every block is recorded by the harness; opens must end inside the band and are refused when already outside, whole closes must stay inside, partial closes must close exactly the configured fraction; whale trades are sized from the reserves to land around the band edge", TB, "DESIGN.md §3 C15"),
+ "C16": ("exploration", HIST + "harness-tracked per-block action sets + what-if twin one block later for bystanders",
+         "restricted traders must be refused (state unchanged); bystanders and next-block traders are compared with a twin of the same state one block height later", TB + "; deployments without fluctuation limit so only the restriction depends on height", "DESIGN.md §3 C16"),
+ "C17": ("exploration", "stateful property-based testing (proptest): vAMM swap histories with quote-vs-execution and limit twins; engine histories with what-if limit experiments",
+         "quotes are compared with executions at every generated state, limits at executed-1/executed/executed+1 decide accept/refuse exactly; at engine level every open/increase/reduce/whole close is replayed from a snapshot with the limit at and one unit beside the executed amount", "mock dependencies (vAMM level), cw-multi-test (engine level)", "DESIGN.md §3 C17"),
+ "C18": ("exploration", "property-based testing (proptest): generated block schedules / round sequences vs a reference time-weighted mean and min/max bounds",
+         "vAMM TWAP answers are compared with bounds and an independent time-weighted mean over harness-recorded block-final prices; the real price feed's TWAP / latest / n-rounds-back answers are compared with the submitted rounds", "mock dependencies; erroring queries are counted, not judged", "DESIGN.md §3 C18"),
+ "C20": ("exploration", HIST + "cap / bound invariants after every step, what-if twin without caps for whitelisted traders",
+         "after every generated config update, whitelist edit, registry change and trade: caps hold for non-whitelisted position-increasing trades, whitelisted traders are not blocked by caps (twin with caps removed), all stored ratios and the TWAP interval stay in range, registered vAMMs share the engine's decimals", TB, "DESIGN.md §3 C20"),
  "C19": ("exploration", "property-based testing (proptest): generated operand pairs vs exact 256-bit reference arithmetic",
          "every public operation of Integer is compared with exact sign-magnitude big-integer arithmetic on generated operand pairs biased to zero, equal magnitudes and the 128-bit boundary; the space (2^258 pairs) cannot be enumerated, so this is search, not proof",
          "trusts cosmwasm_std::Uint256 arithmetic used by the reference; values are interpreted as (-1)^negative * value", "DESIGN.md §3 C19"),
